@@ -4,7 +4,9 @@ import gen
 
 IMPL_MODULE = "version_impl"
 RULE = ("spellings of structured versions (all alternate spellings, separators, case, leading zeros, implicit numbers, v prefix, whitespace), "
-        "mutations of them, and pairs for the canonical-string invariant; non-trivial = accepted by Version; distinct by input text")
+        "mutations of them, and pairs (neighbours and independent random ones) for the canonical-string invariant; wide spellings (zero runs up to 50, "
+        "releases up to 40 components, big epochs / local integers, random alphanumeric local segments, all 29 whitespace code points); law-reading "
+        "compares every attribute with the structured version the spelling was generated from; non-trivial = accepted by Version; distinct by input text")
 ASSUMPTIONS = ["integers beyond CPython's int/str digit limit are outside the generated domain (known finding D10, reported under C11)"]
 
 def streams(rng, tier):
@@ -23,6 +25,34 @@ def streams(rng, tier):
             w = rng.choice(gen.neighbours(rng, v))
             t = gen.spell(rng, w)
             out.append(Case("law-canon", "law.v.canon", [s, t], kind="law"))
+    # ---- improvement round: independent oracle (the structured version a spelling was generated from) and wider spellings ----
+    import json
+    for _ in range(2500 if q else 60000):
+        wide = rng.random() < 0.6
+        v = gen.fix_local(gen.rand_v_wide(rng) if wide else gen.rand_v(rng))
+        s = gen.spell_wide(rng, v) if wide or rng.random() < 0.3 else gen.spell(rng, v)
+        out.append(Case("law-reading", "law.v.reading", [s, json.dumps(gen.reading(v))], kind="law"))
+        if rng.random() < 0.5: out.append(Case("parse-wide", "v.parse", [s]))
+        if rng.random() < 0.2: out.append(Case("canon-wide", "v.canon", [rng.choice("TF"), s]))
+        if rng.random() < 0.15: out.append(Case("law-roundtrip", "law.v.roundtrip", [s], kind="law"))
+        if rng.random() < 0.3:
+            k = rng.random()
+            w = rng.choice(gen.neighbours_wide(rng, v)) if k < 0.6 else gen.rand_v_wide(rng) if k < 0.8 else gen.rand_v(rng)
+            out.append(Case("law-canon", "law.v.canon", [s, gen.spell_wide(rng, w)], kind="law"))
+    # digits that str.isdigit()/int() accept but the (?a:) pattern does not: such strings are non-versions and must pass through unchanged
+    for _ in range(300 if q else 6000):
+        s = gen.spell(rng, gen.rand_v(rng, local_p=0.15), ws=rng.random() < 0.3, vprefix=rng.random() < 0.3)
+        pos = [i for i, ch in enumerate(s) if ch.isdigit()]
+        i = rng.choice(pos)
+        s = s[:i] + rng.choice(["\u0661", "\uff11", "\u00b2", "\u0967", "\u2460", "\U0001d7d9"]) + s[i + 1:]
+        out.append(Case("digit-confusable", "v.parse", [s])); out.append(Case("digit-confusable", "v.canon", [rng.choice("TF"), s]))
+    if not q:       # magnitudes just below CPython's 4300-digit int() limit (thorough tier only: the model takes seconds for each)
+        for x in gen.HUGE4K:
+            for tpl in ["%d", "0001.%d.0", "%d!1", "1+%d", "1.post%d", "1a%d"]:
+                out.append(Case("parse-4k", "v.parse", [tpl % x])); out.append(Case("parse-4k", "v.canon", ["T", tpl % x]))
+    for c in gen.WS_ALL:
+        for s in [c + "1.0", "1.0" + c, c + "v1.0rc1" + c, "1" + c + "0", "1.0" + c + "a1", c]:
+            out.append(Case("ws-all", "v.parse", [s])); out.append(Case("ws-all", "v.canon", ["T", s]))
     for s in ["", " ", "1", "1.0a-1", "1.0-1", "1.0-1-", "1.0a", "1.0.post", "1!0", "0!1", "v1", "1.0+a.b", "1.0+a..b", "1.0.dev", "1.0-r", "1.0c1", "1.0-preview-1", "not a version", "1.0.*", "1.0+", "1..0"]:
         out.append(Case("fixed", "v.parse", [s])); out.append(Case("fixed", "v.canon", ["T", s])); out.append(Case("fixed", "v.canon", ["F", s]))
     return out
